@@ -75,6 +75,10 @@ def execCall (st : DState) (args : List String) : DState × List String :=
       match Producer.parsePacket (st.cfg cid) FlowMsg.empty d with
       | .ok m => (st, ["res ok", m.dump])
       | .error e => (st, [resLine e])
+  | ["jsonvalid", hex] =>
+    match parseHex hex with
+    | some d => (st, ["res ok", "valid=" ++ (if Spec.Json.valid d then "1" else "0")])
+    | none => (st, ["bad-op"])
   | ["getbytes", hex, off, len, sh] =>
     match parseHex hex, off.toInt?, len.toInt? with
     | some d, some o, some l =>
